@@ -525,8 +525,11 @@ class Sign(Machine):
             inherited_alg_next = eff_alg
         if omit:
             inherited_alg_next = inherited_alg
-            if s.chance(0.3):
-                cfg["alg"] = s.choice(ALGS)
+            if s.chance(0.6):
+                # an unsigned level still sets the default algorithm of the levels below it; mostly one for which a key
+                # exists, so that a dependency without an "alg" of its own really is signed with the inherited one
+                workable = [a for a in ALGS if a != (inherited_alg or "eddsa") and any(usable(model["keys"][k], a) is True for k in keynames)]
+                cfg["alg"] = s.choice(workable) if workable and s.chance(0.8) else s.choice(ALGS)
                 inherited_alg_next = cfg["alg"]
         if top:
             if not use_env_fallback:
